@@ -27,6 +27,7 @@ import (
 	"strings"
 	"sync"
 	"sync/atomic"
+	"syscall"
 	"testing"
 	"time"
 
@@ -40,7 +41,7 @@ import (
 
 // zzC14Spec is the scenario description passed in ZZC14_SPEC.
 type zzC14Spec struct {
-	Mode   string `json:"mode"`   // "trace" | "poll"
+	Mode   string `json:"mode"`   // "trace" | "poll" | "crash"
 	Writer string `json:"writer"` // "filter"
 	Root   string `json:"root"`   // scratch root, exists, empty
 	Out    string `json:"out"`    // NDJSON result file
@@ -48,6 +49,11 @@ type zzC14Spec struct {
 	Seed   int64  `json:"seed"`
 	// MaxReads bounds the number of reads of the concurrent reader.
 	MaxReads int `json:"maxreads"`
+	// Resume: the scratch root is what an earlier (killed) child left behind;
+	// set-up must take the destination and everything else as it finds them.
+	Resume bool `json:"resume"`
+	// Gen distinguishes the documents of successive children on one root.
+	Gen int `json:"gen"`
 }
 
 // zzC14Writer is one of the real save paths.
@@ -168,7 +174,11 @@ func zzC14Run(t *testing.T, sp *zzC14Spec, w zzC14Writer) {
 		}()
 	}
 
-	for _, size := range sp.Sizes {
+	for i, size := range sp.Sizes {
+		if sp.Mode == "crash" && i == len(sp.Sizes)-1 {
+			zzC14CrashWatcher(dst)
+		}
+
 		ver++
 		lg.add(map[string]any{"ev": "begin", "id": ver, "want": size})
 		zzC14Mark(fmt.Sprintf("begin/%d", ver))
@@ -235,6 +245,55 @@ func zzC14Run(t *testing.T, sp *zzC14Spec, w zzC14Writer) {
 	lg.flush(t, sp.Out)
 }
 
+// zzC14CrashWatcher is the "power cord" of the crash mode: as soon as a file
+// that did not exist before the last save shows up next to the destination
+// (or in TMPDIR) with a non-zero, no longer growing size -- i.e. the writer is
+// somewhere between its last write and the end of the save -- the whole
+// process is killed with SIGKILL.  Whatever it leaves behind (typically a
+// left-over temporary file) is the starting state of the next child.
+func zzC14CrashWatcher(dst string) {
+	dirs := []string{filepath.Dir(dst)}
+	if td := os.TempDir(); td != dirs[0] {
+		dirs = append(dirs, td)
+	}
+
+	known := map[string]bool{dst: true}
+	for _, d := range dirs {
+		ents, _ := os.ReadDir(d)
+		for _, e := range ents {
+			known[filepath.Join(d, e.Name())] = true
+		}
+	}
+
+	go func() {
+		last := map[string]int64{}
+		for {
+			for _, d := range dirs {
+				ents, _ := os.ReadDir(d)
+				for _, e := range ents {
+					p := filepath.Join(d, e.Name())
+					if known[p] || e.IsDir() {
+						continue
+					}
+
+					fi, err := e.Info()
+					if err != nil {
+						continue
+					}
+
+					if n := fi.Size(); n > 0 && last[p] == n {
+						_ = syscall.Kill(syscall.Getpid(), syscall.SIGKILL)
+					} else {
+						last[p] = n
+					}
+				}
+			}
+
+			time.Sleep(100 * time.Microsecond)
+		}
+	}()
+}
+
 func zzC14LoadSpec(t *testing.T) (sp *zzC14Spec) {
 	s := os.Getenv("ZZC14_SPEC")
 	if s == "" {
@@ -260,8 +319,8 @@ type zzC14Doc struct {
 
 // zzC14Rules returns the user rules of version ver: a marker line and filler
 // rules, size bytes in total.
-func zzC14Rules(ver, size int) (rules []string) {
-	rules = []string{fmt.Sprintf("# zzc14 v%d", ver)}
+func zzC14Rules(gen, ver, size int) (rules []string) {
+	rules = []string{fmt.Sprintf("# zzc14 g%d v%d", gen, ver)}
 	const line = "||abcdefghijklmnopqrstuvwxyz0123456789-abcdefghijklmnopqrstuvwxyz0123456789.example^"
 	for n := len(rules[0]); n < size; n += len(line) + 3 {
 		rules = append(rules, line)
@@ -321,19 +380,27 @@ func zzC14Globals(t *testing.T, sp *zzC14Spec) (dst string) {
 
 // zzC14Config drives the configuration save.
 type zzC14Config struct {
+	sp     *zzC14Spec
 	rules  map[int]int
 	themes map[int]Theme
 }
 
 func (w *zzC14Config) setup(t *testing.T, sp *zzC14Spec) (dst string, init int) {
+	w.sp = sp
 	w.rules = map[int]int{}
 	w.themes = map[int]Theme{}
 
-	return zzC14Globals(t, sp), -1
+	dst = zzC14Globals(t, sp)
+	init = -1
+	if fi, serr := os.Stat(dst); sp.Resume && serr == nil {
+		init = int(fi.Size())
+	}
+
+	return dst, init
 }
 
 func (w *zzC14Config) save(t *testing.T, ver, size int) (err error) {
-	rules := zzC14Rules(ver, size)
+	rules := zzC14Rules(w.sp.Gen, ver, size)
 	func() {
 		config.Lock()
 		defer config.Unlock()
@@ -366,7 +433,7 @@ func (w *zzC14Config) check(ver int, data []byte) (ok bool) {
 	return doc.SchemaVersion == configmigrate.LastSchemaVersion &&
 		doc.Theme == string(w.themes[ver]) &&
 		len(doc.UserRules) == w.rules[ver] &&
-		doc.UserRules[0] == fmt.Sprintf("# zzc14 v%d", ver) &&
+		doc.UserRules[0] == fmt.Sprintf("# zzc14 g%d v%d", w.sp.Gen, ver) &&
 		bytes.HasSuffix(data, []byte(fmt.Sprintf("schema_version: %d\n", configmigrate.LastSchemaVersion)))
 }
 
@@ -384,7 +451,7 @@ func (w *zzC14Upgrade) setup(t *testing.T, sp *zzC14Spec) (dst string, init int)
 		size = sp.Sizes[0]
 	}
 
-	rules := zzC14Rules(1, size)
+	rules := zzC14Rules(0, 1, size)
 	w.rules = len(rules)
 
 	buf := &bytes.Buffer{}
@@ -425,7 +492,7 @@ func (w *zzC14Upgrade) check(ver int, data []byte) (ok bool) {
 
 	return doc.SchemaVersion == configmigrate.LastSchemaVersion &&
 		len(doc.UserRules) == w.rules &&
-		doc.UserRules[0] == "# zzc14 v1"
+		doc.UserRules[0] == "# zzc14 g0 v1"
 }
 
 func (w *zzC14Config) intended(ver int) (size int) { return -1 }
